@@ -260,14 +260,29 @@ func cmdTamper(args []string) {
 		fatal(3, err)
 	}
 	n := e.Net
+	// the node refusing a block it assembled itself is exactly what C07 forbids: report it (own-block-rejected is recorded by
+	// the runner) instead of dying
+	giveUp := func(where string, err error) {
+		if len(r.Problems) == 0 {
+			fatal(3, where, err)
+		}
+		res := map[string]interface{}{"outcomes": []interface{}{}, "problems": r.Problems, "mutants_offered": 0, "blocks": *nblocks, "aborted": where + ": " + err.Error()}
+		bts, _ := json.MarshalIndent(res, "", " ")
+		os.WriteFile(*out, bts, 0o644)
+		if *traceOut != "" {
+			r.WriteEvents(*traceOut)
+		}
+		fmt.Printf("{\"mutants_offered\":0,\"problems\":%d}\n", len(r.Problems))
+		os.Exit(0)
+	}
 	head, err := r.WarmUp()
 	if err != nil {
-		fatal(3, "warm-up:", err)
+		giveUp("warm-up", err)
 	}
 	for i := 0; i < 2; i++ {
 		r.RandomContent(4)
 		if head, err = r.MineOn(head, -1); err != nil {
-			fatal(3, err)
+			giveUp("mine", err)
 		}
 	}
 	type outcome struct {
@@ -287,7 +302,7 @@ func cmdTamper(args []string) {
 			// ETXs to execute (coinbases of several blocks, conversions)
 			for _, ord := range []int{mininet.Region, mininet.Prime} {
 				if _, err := r.MineOn(r.Blocks2Head(), ord); err != nil {
-					fatal(3, "confirming block:", err)
+					giveUp("confirming block", err)
 				}
 			}
 		}
